@@ -207,6 +207,20 @@ func (h *heap) sharedBacking(o *hobj) bool {
 	return false
 }
 
+// hlen is what (length v) yields for a container, -1 for anything else.
+func hlen(v hval) int {
+	if v.k != hRef {
+		return -1
+	}
+	switch v.obj.kind {
+	case oMap:
+		return len(v.obj.m)
+	case oBytes:
+		return len(v.obj.b)
+	}
+	return v.obj.n
+}
+
 func isSeqV(v hval) bool { return v.k == hRef && (v.obj.kind == oList || v.obj.kind == oVec) }
 func allInts(o *hobj) bool {
 	for _, c := range o.cells() {
@@ -316,6 +330,11 @@ func (op HeapOp) src() string {
 			return set(fmt.Sprintf("(insert-sorted '%s %s (lambda (a b) (sim:fp 1 (< a b))) %d)", op.Type, v(op.A), op.I))
 		}
 		return set(fmt.Sprintf("(insert-sorted '%s %s < %d)", op.Type, v(op.A), op.I))
+	case "insert-sorted-len":
+		// the sequence holds containers ordered by their length; the inserted
+		// item is a container too, and it is the caller's own value that must
+		// end up in the result
+		return set(fmt.Sprintf("(insert-sorted '%s %s (lambda (a b) (< (length a) (length b))) %s)", op.Type, v(op.A), el))
 	case "concat":
 		return set(fmt.Sprintf("(concat '%s %s %s)", op.Type, v(op.A), v(op.B)))
 	case "assoc":
@@ -465,6 +484,21 @@ func (h *heap) valid(op HeapOp) bool {
 		return isSeqV(a) && isSeqV(b)
 	case "insert-index":
 		return isSeqV(a) && len(op.Elems) == 1 && 0 <= op.I && op.I <= a.obj.n
+	case "insert-sorted-len":
+		if !isSeqV(a) || len(op.Elems) != 1 || !strings.HasPrefix(op.Elems[0], "v") {
+			return false
+		}
+		item := h.elem(op.Elems[0])
+		if hlen(item) < 0 || item.obj == a.obj || h.touchesUnknown(item) || h.touchesUnknown(a) {
+			return false
+		}
+		cs := a.obj.cells()
+		for i, c := range cs {
+			if hlen(c) < 0 || c.obj == a.obj || (i > 0 && hlen(cs[i-1]) > hlen(c)) {
+				return false
+			}
+		}
+		return true
 	case "insert-sorted":
 		if !isSeqV(a) || !allInts(a.obj) {
 			return false
@@ -604,7 +638,7 @@ func (h *heap) outSize(op HeapOp) int {
 		return op.J - op.I
 	case "append", "append!":
 		return n(a) + len(op.Elems)
-	case "cons", "insert-index", "insert-sorted":
+	case "cons", "insert-index", "insert-sorted", "insert-sorted-len":
 		return n(a) + 1
 	case "reverse", "map-inc", "select", "reject", "sort", "sort-key", "sort-str", "sort-mod", "copy", "apply-rest", "apply-sort":
 		return n(a)
@@ -730,6 +764,14 @@ func (h *heap) apply(op HeapOp, callbackFailed bool) {
 		pos := sort.Search(len(src), func(i int) bool { return op.I < src[i].i })
 		cs := append([]hval(nil), src[:pos]...)
 		cs = append(cs, hint(op.I))
+		cs = append(cs, src[pos:]...)
+		res = newSeq(kind, cs)
+	case "insert-sorted-len":
+		src := a.obj.cells()
+		item := elems()[0]
+		pos := sort.Search(len(src), func(i int) bool { return hlen(item) < hlen(src[i]) })
+		cs := append([]hval(nil), src[:pos]...)
+		cs = append(cs, item)
 		cs = append(cs, src[pos:]...)
 		res = newSeq(kind, cs)
 	case "concat":
@@ -953,7 +995,7 @@ func (heapEngine) Gen(r *Rand, tier string) any {
 	}
 	kinds := []string{"list", "vector", "map", "bytes", "mkseq", "alias", "alias-via", "alias-via", "slice", "slice", "cdr", "rest", "append", "append", "cons", "reverse",
 		"map-inc", "select", "reject", "zip", "insert-index", "insert-sorted", "concat", "assoc", "dissoc", "keys", "nth", "get", "get-default", "get-default", "key?", "length",
-		"assoc!", "assoc!", "dissoc!", "append!", "append!", "append!", "append-bytes!", "append-bytes", "slice-bytes", "append!-bytes", "sort", "sort", "sort", "sort-key", "sort-str", "sort-str", "keys", "sort-mod", "sort-mod", "copy", "copy", "append-ts-bytes", "append-bytes-v!", "append-bytes-v!", "append-bytes-v", "apply-rest", "apply-rest", "apply-sort", "apply-sort", "funcall-rest"}
+		"assoc!", "assoc!", "dissoc!", "append!", "append!", "append!", "append-bytes!", "append-bytes", "slice-bytes", "append!-bytes", "sort", "sort", "sort", "sort-key", "sort-str", "sort-str", "keys", "sort-mod", "sort-mod", "copy", "copy", "append-ts-bytes", "append-bytes-v!", "append-bytes-v!", "append-bytes-v", "apply-rest", "apply-rest", "apply-sort", "apply-sort", "funcall-rest", "insert-sorted-len", "insert-sorted-len", "insert-sorted-len"}
 	var planned []HeapOp
 	for len(c.Ops) < n {
 		// repair: a backing left in unknown order is re-sorted next
@@ -1021,6 +1063,18 @@ func (heapEngine) Gen(r *Rand, tier string) any {
 					})
 				case "sort", "sort-key", "sort-mod", "map-inc", "select", "reject", "insert-sorted":
 					want(func(v hval) bool { return isSeqV(v) && v.obj.n >= 2 && allInts(v.obj) })
+				case "insert-sorted-len":
+					want(func(v hval) bool {
+						if !isSeqV(v) {
+							return false
+						}
+						for _, c := range v.obj.cells() {
+							if hlen(c) < 0 {
+								return false
+							}
+						}
+						return true
+					})
 				case "keys", "get", "get-default", "key?", "assoc", "assoc!", "dissoc", "dissoc!":
 					want(isKind(oMap))
 				case "append!":
@@ -1088,6 +1142,18 @@ func (heapEngine) Gen(r *Rand, tier string) any {
 					if a.k == hRef && a.obj.kind == oBytes {
 						op.I = r.Range(0, len(a.obj.b))
 						op.J = r.Range(op.I, len(a.obj.b))
+					}
+				case "insert-sorted-len":
+					// the item: a variable holding a map or a list by preference
+					// (containers whose copy does not share storage)
+					var cands []int
+					for vi, v := range h.vars {
+						if hlen(v) >= 0 && vi != op.A && (v.obj.kind == oMap || v.obj.kind == oList || r.Chance(1, 4)) {
+							cands = append(cands, vi)
+						}
+					}
+					if len(cands) > 0 {
+						op.Elems = []string{fmt.Sprintf("v%d", cands[r.Intn(len(cands))])}
 					}
 				case "funcall-rest":
 					op.Elems = intsN(2, 4)
